@@ -90,7 +90,14 @@ pub trait NamingContext {
     fn compute_function_name(&self, name: &str, _rename_all: &Option<RenameRule>) -> String {
         // Always use TypeScript conventions (camelCase for functions)
         // Command-level rename_all doesn't affect the function name
-        self.apply_naming_convention(name, RenameRule::CamelCase)
+        let ts_name = self.apply_naming_convention(name, RenameRule::CamelCase);
+        // Rust accepts names such as `delete`, `new` or `_private` whose camelCase form is a
+        // reserved word in TypeScript modules; `function delete()` does not parse.
+        if is_ts_reserved_word(&ts_name) {
+            format!("{}_", ts_name)
+        } else {
+            ts_name
+        }
     }
 
     /// Compute the TypeScript type name (PascalCase)
@@ -102,6 +109,61 @@ pub trait NamingContext {
         // Command-level rename_all doesn't affect the type name
         self.apply_naming_convention(name, RenameRule::PascalCase)
     }
+}
+
+/// Words that cannot name a function in a TypeScript (strict, module) source file
+fn is_ts_reserved_word(name: &str) -> bool {
+    matches!(
+        name,
+        "break"
+            | "case"
+            | "catch"
+            | "class"
+            | "const"
+            | "continue"
+            | "debugger"
+            | "default"
+            | "delete"
+            | "do"
+            | "else"
+            | "enum"
+            | "export"
+            | "extends"
+            | "false"
+            | "finally"
+            | "for"
+            | "function"
+            | "if"
+            | "import"
+            | "in"
+            | "instanceof"
+            | "new"
+            | "null"
+            | "return"
+            | "super"
+            | "switch"
+            | "this"
+            | "throw"
+            | "true"
+            | "try"
+            | "typeof"
+            | "var"
+            | "void"
+            | "while"
+            | "with"
+            | "yield"
+            | "let"
+            | "static"
+            | "implements"
+            | "interface"
+            | "package"
+            | "private"
+            | "protected"
+            | "public"
+            | "await"
+            | "arguments"
+            | "eval"
+    )
 }
 
 /// Template context wrapper for CommandInfo with computed TypeScript-specific fields
